@@ -168,12 +168,14 @@ func newCarrier(name string, desc *grpc.ServiceDesc, svc interface{}, o carrierO
 
 // httpCarrierFor serves an arbitrary handler over the in-memory listener and returns a
 // carrier whose Conn is an httpgrpc.Channel talking to it (base path "/").
-func httpCarrierFor(h http.Handler) *Carrier {
+func httpCarrierFor(h http.Handler) *Carrier { return httpCarrierForBase(h, "/") }
+
+func httpCarrierForBase(h http.Handler, base string) *Carrier {
 	lis := newMemListener()
 	srv := &http.Server{Handler: h}
 	go srv.Serve(lis)
 	tr := &http.Transport{DialContext: func(ctx context.Context, _, _ string) (net.Conn, error) { return lis.DialContext(ctx) }}
-	u := &url.URL{Scheme: "http", Host: "verif.test", Path: "/"}
+	u := &url.URL{Scheme: "http", Host: "verif.test", Path: base}
 	c := &Carrier{Name: cHTTP, HTTPHandler: h, Transport: tr, BaseURL: u, Conn: &httpgrpc.Channel{Transport: tr, BaseURL: u}}
 	c.closer = append(c.closer, func() { tr.CloseIdleConnections(); srv.Close(); lis.Close() })
 	return c
